@@ -162,6 +162,40 @@ def main():
     if missing:
         die("parse_request: commands without an arm: %s" % missing)
 
+    # inside each body parser: which request variant an opcode becomes
+    #   `if self.header.opcode == binary::Command::C as u8 { .. BinaryRequest::V( .. } else { .. BinaryRequest::Vd( .. }`
+    #   or `Some(binary::Command::C) => .. BinaryRequest::V(`
+    variant_tables = {}   # parser id -> ([(cmd name, variant name)], default variant name or None)
+    for pname, pid in parser_ids.items():
+        if not pname.startswith("parse_"):
+            continue
+        mf = re.search(r"\n    fn %s\(.*?\n    \}\n" % re.escape(pname), codec, re.S)
+        if not mf:
+            die("body parser %s not found" % pname)
+        fbody = mf.group(0)
+        toks = list(re.finditer(r"self\.header\.opcode == binary::Command::([A-Za-z]+) as u8|Some\(binary::Command::([A-Za-z]+)\)\s*=>|BinaryRequest::([A-Za-z]+)\(", fbody))
+        pairs, default, pending = [], None, None
+        for t in toks:
+            c = t.group(1) or t.group(2)
+            if c:
+                if pending is not None:
+                    die("%s: condition on %s not followed by a request variant" % (pname, pending))
+                pending = c
+            else:
+                v = t.group(3)
+                if pending is not None:
+                    pairs.append((pending, v))
+                    pending = None
+                else:
+                    if default is not None:
+                        die("%s: two unconditional request variants (%s, %s)" % (pname, default, v))
+                    default = v
+        if pending is not None:
+            die("%s: condition on %s not followed by a request variant" % (pname, pending))
+        if not pairs and default is None:
+            die("%s: no request variant found" % pname)
+        variant_tables[pid] = (pairs, default)
+
     # the routing of BinaryHandler::handle_request: request variant -> (handler function, filter)
     m = re.search(r"pub fn handle_request\(.*?match req \{(.*?)\n        \}\n    \}", handler, re.S)
     if not m:
@@ -275,6 +309,23 @@ def main():
     A("   filters: 1 Some(..) (always answered), 2 into_quiet_mutation, 3 into_quiet_get *)")
     A("Definition handler_routes : list (N * N * N) :=")
     A("  [" + ";\n   ".join("(%d, %d, %d) (* %s *)" % (vid, hid, fid, n) for n, vid, hid, fid in routes) + "].")
+    A("")
+    A("(* inside each body parser (ids as in decode_dispatch): opcode -> request variant (ids as in")
+    A("   handler_routes), and the variant of the final else-branch (0: none, the parser rejects) *)")
+    A("Definition parser_variants : list (N * list (N * N) * N) :=")
+    rows = []
+    for pid in sorted(variant_tables):
+        pairs, default = variant_tables[pid]
+        for c, v in pairs:
+            if c not in cmd_names:
+                die("parser %d: unknown command %s" % (pid, c))
+            if v not in variant_ids:
+                die("parser %d: unknown request variant %s" % (pid, v))
+        if default is not None and default not in variant_ids:
+            die("parser %d: unknown request variant %s" % (pid, default))
+        rows.append("(%d, [%s], %d)" % (pid, "; ".join("(cmd_%s, %d)" % (c, variant_ids[v]) for c, v in pairs),
+                                        variant_ids[default] if default else 0))
+    A("  [" + ";\n   ".join(rows) + "].")
     A("")
     A("Definition decode_dispatch : list (list N * N) :=")
     A("  [" + ";\n   ".join("([%s], %d)" % ("; ".join("cmd_" + n for n in names), pid) for names, pid in dispatch) + "].")
